@@ -12,7 +12,7 @@ func init() { runners["C10"] = runC10 }
 // (enc e xkey xplain (rnd ...)) : NewCrypto(key) then Encrypt(plain) with a scripted random source
 func implAesEnc(e string, key, plain []byte, script []byte, fails []int) (out string, ct []byte) {
 	out = run(func() string {
-		c, err := encr.StrToType(encrNames[e]).NewCrypto(key)
+		c, err := encr.StrToType(encrNames[e]).NewCrypto(scratchArg(0, key))
 		if err != nil {
 			return "newcrypto-err"
 		}
@@ -33,7 +33,7 @@ func implAesEnc(e string, key, plain []byte, script []byte, fails []int) (out st
 
 func implAesDec(e string, key, ct []byte) string {
 	return run(func() string {
-		c, err := encr.StrToType(encrNames[e]).NewCrypto(key)
+		c, err := encr.StrToType(encrNames[e]).NewCrypto(scratchArg(0, key))
 		if err != nil {
 			return "newcrypto-err"
 		}
